@@ -21,6 +21,23 @@ ISIZE_MAX = (1 << 63) - 1
 RQ = 12289
 
 
+class modulus:
+    """residue-class polynomials are taken modulo RQ (Falcon's q by default); `with modulus(p):` switches the
+    modulus for the analyses of the 30-bit prime field"""
+
+    def __init__(self, m):
+        self.m = m
+
+    def __enter__(self):
+        global RQ
+        self.old = RQ
+        RQ = self.m
+
+    def __exit__(self, *a):
+        global RQ
+        RQ = self.old
+
+
 def p_const(c):
     c %= RQ
     return {(): c} if c else {}
